@@ -23,6 +23,7 @@ type genState struct {
 	blocks   int
 	reliab   map[string]float64
 	maxBlocks int
+	past     []string // earlier transactions (text after the mode), for replays
 }
 
 var poolAddr = hx(ModAddr(posTypes.StakedPoolName))
@@ -521,9 +522,6 @@ func (f *Fam) checkTx(before, after *Snapshot, r string, bz []byte, msg sdk.Msg,
 		if t.kind == "send" && t.f["to"] == poolAddr && r == "ok" {
 			f.donated = f.donated.Add(mustInt(t.f["amt"]))
 		}
-	}
-	if r == "ok" {
-		f.delivered[hash] = true
 	}
 }
 
